@@ -921,7 +921,3 @@ def ff_comp(ctx):
         ctx.ob('FF-COMP', ok, None, "compensated '%s' = computed - error" % c, f=f, key='comp-' + c,
                why="the compensated '%s' is not the computed value minus its estimated error "
                    "(sign, radius of principal_radii at the nominal point, or RAD_TO_DEG)" % c)
-    # the caller's tables are not modified (the update works on a copy)
-    ok = all(isinstance(com.cols[c], Rat) and A.eq(com.cols[c], A.sym(c)) for c in traj_cols)
-    ctx.ob('FF-COMP', ok, None, 'the computed trajectory passed in is left untouched', f=f,
-           key='copy', why='_compute_feedforward_result modifies the trajectory table it was given')
